@@ -440,9 +440,11 @@ class Optic:
 
         if isinstance(distribution, str):
             distribution = create_distribution(distribution)
-            distribution.generate_points(num_rays, vx, vy)
-        Px = distribution.x * (1 - vx)
-        Py = distribution.y * (1 - vy)
+            distribution.generate_points(num_rays)
+        # the ray generator compresses the pupil by the vignetting factors;
+        # doing it here as well applied them two or three times
+        Px = distribution.x
+        Py = distribution.y
 
         rays = self.ray_generator.generate_rays(Hx, Hy, Px, Py, wavelength)
         self.surface_group.trace(rays)
@@ -468,8 +470,11 @@ class Optic:
         """
         vx, vy = self.fields.get_vig_factor(Hx, Hy)
 
-        Px = Px * (1 - vx)
-        Py = Py * (1 - vy)
+        # the ray generator compresses the pupil by the vignetting factors;
+        # here the pupil coordinates are only made float arrays of the field's
+        # shape (without touching the caller's arrays)
+        Px = Px * np.ones_like(vx, dtype=float)
+        Py = Py * np.ones_like(vy, dtype=float)
 
         # assure all variables are arrays of the same size
         max_size = max([np.size(arr) for arr in [Hx, Hy, Px, Py]])
